@@ -175,13 +175,13 @@ Definition delete_by_name_w (bs name buf : list N) : res (list N) :=
   if is_jsonb bs then delete_by_name_b bs name buf else delete_by_name_m bs name buf.
 
 (* delete_jsonb_by_index: `len` and `index` are i32 (the count field has 29 bits; `len + index` is only computed for a
-   negative index, I32.resolve_in_range); TreeOps.resolve is literally `if index < 0 { len + index } else { index }` *)
+   negative index, I32.v); DBI_B_RESOLVE / DBI_B_SKIP are generated from the source (gen/Constants.v) *)
 Definition delete_by_index_b (bs : list N) (i : Z) (buf : list N) : res (list N) :=
   do hdr <- rd bs 0;
   if hdr_type hdr =? ARRAY_CONTAINER_TAG then
     let len := Z.of_N (hdr_len hdr) in
-    let index := resolve i len in
-    if ((index <? 0) || (len <=? index))%Z then Ok (buf ++ bs)          (* buf.extend_from_slice(value) *)
+    let index := DBI_B_RESOLVE i len in                                (* generated from delete_jsonb_by_index *)
+    if DBI_B_SKIP index len then Ok (buf ++ bs)          (* buf.extend_from_slice(value) *)
     else
       do items <- arr_items bs hdr;                                     (* enumerate(): i != index *)
       Ok (build_arr_into buf (map raw_entry (remove_at items (Z.to_N index))))
@@ -189,12 +189,12 @@ Definition delete_by_index_b (bs : list N) (i : Z) (buf : list N) : res (list N)
 Definition delete_by_index_w (bs : list N) (i : Z) (buf : list N) : res (list N) :=
   if is_jsonb bs then delete_by_index_b bs i buf else delete_by_index_m bs i buf.
 
-(* array_insert_jsonb: TreeOps.clamp 0 len idx is literally `if idx < 0 { 0 } else if idx > len { len } else { idx }` *)
+(* array_insert_jsonb: AI_RESOLVE / AI_CLAMP / AI_NONARRAY_LEN are generated from the source (gen/Constants.v) *)
 Definition array_insert_b (bs : list N) (pos : Z) (nv buf : list N) : res (list N) :=
   do hdr <- rd bs 0;
   let ty := hdr_type hdr in
-  let len := if ty =? ARRAY_CONTAINER_TAG then Z.of_N (hdr_len hdr) else 1%Z in
-  let idx := clamp 0 len (resolve pos len) in
+  let len := if ty =? ARRAY_CONTAINER_TAG then Z.of_N (hdr_len hdr) else AI_NONARRAY_LEN in
+  let idx := AI_CLAMP (AI_RESOLVE pos len) len in                      (* generated from array_insert_jsonb *)
   do items <- (if ty =? ARRAY_CONTAINER_TAG then arr_items bs hdr
                else if ty =? OBJECT_CONTAINER_TAG then Ok [container_item bs]
                else do it <- scalar_item bs; Ok [it]);
